@@ -235,6 +235,10 @@ def run(ctx):
     r['violations'] += v2
     r['evaluations'] += runs2
     r['extra']['resumed_limit_runs'] = runs2
+    from props import C15 as _c15
+    v4, runs4 = _c15.limited_resume_history('C09', (10 ** 6, 200))
+    r['violations'] += v4
+    r['evaluations'] += runs4
     viol, samples, runs = cli_cases(ctx)
     r['violations'] += viol
     r['samples'] = (r['samples'][:3] + samples)[:6]
@@ -256,6 +260,10 @@ def replay(ctx, payload):
         return mode_option_case(w['mode_args'], 'replaymode')
     if 'refused_load_answer' in w:
         return refused_load_case(w['refused_load_answer'].encode())
+    if w.get('limited_resume_history'):
+        from props import C15 as _c15
+        common.use_impl()
+        return _c15.limited_resume_history('C09', (w.get('limit', 10 ** 6),))[0]
     if 'damaged_omen_file' in w:
         return damaged_omen_case(w['damaged_omen_file'])[0]
     if 'cli' in w:
